@@ -355,6 +355,20 @@ def stylesheet(ctx, fn):
     semi = [x for x in stores if any(isinstance(n, ast.Constant) and n.value == ";" for n in ast.walk(x[1]))]
     joins = [c for c in method_calls(br, "join") if is_const(ctx.m, c.func.value, ";")]
     ctx.ob("R14.2", "stylesheet[separator between accumulated blocks]", bool(semi or joins), "", br.lineno, "blocks are joined with a declaration separator")
+    # a conditional separator (`if not <text>.endswith(";"): entry += ";"`) must look at the text it is appended to - the
+    # existing entry - not at the block that comes next: `.a{fill:red}` + `.a{stroke:blue;}` would give "fill:redstroke:blue;"
+    for x in semi:
+        st = x[2]
+        p_ = getattr(st, "_parent", None)
+        if not isinstance(p_, ast.If):
+            continue
+        ends = [c for c in ast.walk(p_.test) if isinstance(c, ast.Call) and isinstance(c.func, ast.Attribute) and c.func.attr in ("endswith", "rstrip", "strip") ]
+        if not ends:
+            continue
+        recv = [c.func.value for c in ends]
+        ok_sep = all(reads_entry(r, x[0].slice) for r in recv)
+        ctx.ob("R14.2", "stylesheet[conditional separator looks at the existing entry]", ok_sep, "; ".join(ast.unparse(r)[:40] for r in recv), p_.lineno,
+               "whether a `;` is needed depends on how the text already stored for the selector ends")
 
 
 def defaults(ctx, fn, attrs):
